@@ -132,21 +132,25 @@ inductive HasType (Γ : Ctx) : Env → Ast → ExprTy → Prop where
   | imperative {Δ Δ' : Env} {d : TokData} {lo hi : Int} {value : Ast} {blocks : List Ast} {t : Ty} :
       Blocks Γ Δ blocks Δ' → HasType Γ Δ' value (.ty t) →
       HasType Γ Δ (.node .NT_IMPERATIVE_EXPR d lo hi (value :: blocks)) (.ty (.coll t))
-  /-- `R{p := init | step}`: the variable's type `τ` is a fixed point of typing `step`, reached
-  from the type of the first step, which must be compatible with the type of `init`; the value may
-  be the initial one, so the type of the expression joins `τ` with the type of `init` -/
-  | recShort {Δ Δ0 Δτ : Env} {d : TokData} {lo hi : Int} {p init step : Ast} {t0 t1 τ m : Ty} :
+  /-- `R{p := init | step}`: the variable holds the initial value first and the values of the step
+  afterwards, so its type `τ` bounds both: the type of the first step (variable typed as `init`) must be
+  compatible with the type `t0` of `init`; `τ` is reached from the join of the two by the chain
+  `StepReach` (join the type of the step into the type of the variable) and is a fixed point of it:
+  with the variable at `τ` the step has a type `tτ` that stays within `τ` (`tτ ⊔ τ = τ`). `τ` is the
+  type of the term -/
+  | recShort {Δ Δ0 Δτ : Env} {d : TokData} {lo hi : Int} {p init step : Ast} {t0 t1 v0 τ tτ : Ty} :
       HasType Γ Δ init (.ty t0) → Binds Δ p t0 Δ0 → HasType Γ Δ0 step (.ty t1) →
-      compat Γ.traits t1 t0 = true → StepReach Γ Δ p step t1 τ →
-      Binds Δ p τ Δτ → HasType Γ Δτ step (.ty τ) → merge Γ.traits τ t0 = some m →
-      HasType Γ Δ (.node .NT_RECURSIVE_SHORT d lo hi [p, init, step]) (.ty m)
-  /-- `R{p := init | cond | step}` -/
-  | recFull {Δ Δ0 Δτ : Env} {d : TokData} {lo hi : Int} {p init cond step : Ast} {t0 t1 τ m : Ty} :
+      compat Γ.traits t1 t0 = true → merge Γ.traits t1 t0 = some v0 → StepReach Γ Δ p step v0 τ →
+      Binds Δ p τ Δτ → HasType Γ Δτ step (.ty tτ) → merge Γ.traits tτ τ = some τ →
+      HasType Γ Δ (.node .NT_RECURSIVE_SHORT d lo hi [p, init, step]) (.ty τ)
+  /-- `R{p := init | cond | step}`: as above; the condition is a statement about the variable at its
+  type `τ` -/
+  | recFull {Δ Δ0 Δτ : Env} {d : TokData} {lo hi : Int} {p init cond step : Ast} {t0 t1 v0 τ tτ : Ty} :
       HasType Γ Δ init (.ty t0) → Binds Δ p t0 Δ0 → HasType Γ Δ0 step (.ty t1) →
-      compat Γ.traits t1 t0 = true → StepReach Γ Δ p step t1 τ →
-      Binds Δ p τ Δτ → HasType Γ Δτ step (.ty τ) → HasType Γ Δτ cond .logic →
-      merge Γ.traits τ t0 = some m →
-      HasType Γ Δ (.node .NT_RECURSIVE_FULL d lo hi [p, init, cond, step]) (.ty m)
+      compat Γ.traits t1 t0 = true → merge Γ.traits t1 t0 = some v0 → StepReach Γ Δ p step v0 τ →
+      Binds Δ p τ Δτ → HasType Γ Δτ step (.ty tτ) → merge Γ.traits tτ τ = some τ →
+      HasType Γ Δτ cond .logic →
+      HasType Γ Δ (.node .NT_RECURSIVE_FULL d lo hi [p, init, cond, step]) (.ty τ)
   /-- `A × B × …` -/
   | decart {Δ : Env} {d : TokData} {lo hi : Int} {a b : Ast} {ks : List Ast} {es : List Ty} :
       HasSets Γ Δ (a :: b :: ks) es →
@@ -256,13 +260,13 @@ inductive Blocks (Γ : Ctx) : Env → List Ast → Env → Prop where
       b.id ≠ .ITERATE → b.id ≠ .ASSIGN → HasType Γ Δ b .logic → Blocks Γ Δ bs Δ2 →
       Blocks Γ Δ (b :: bs) Δ2
 
-/-- the chain of type deduction for a recursion variable: `σ ⟶ σ'` when `step` has type `σ'`
-with the variable at type `σ` -/
+/-- the chain of type deduction for a recursion variable: `σ ⟶ σ ⊔ σ'` when `step` has type `σ'`
+with the variable at type `σ` (the join `merge` must exist) -/
 inductive StepReach (Γ : Ctx) : Env → Ast → Ast → Ty → Ty → Prop where
   | refl {Δ : Env} {p step : Ast} {σ : Ty} : StepReach Γ Δ p step σ σ
-  | step {Δ Δσ : Env} {p step : Ast} {σ σ' τ : Ty} :
-      Binds Δ p σ Δσ → HasType Γ Δσ step (.ty σ') → StepReach Γ Δ p step σ' τ →
-      StepReach Γ Δ p step σ τ
+  | step {Δ Δσ : Env} {p step : Ast} {σ σ' σ'' τ : Ty} :
+      Binds Δ p σ Δσ → HasType Γ Δσ step (.ty σ') → merge Γ.traits σ' σ = some σ'' →
+      StepReach Γ Δ p step σ'' τ → StepReach Γ Δ p step σ τ
 end
 
 /-- argument declarations `x ∈ dom, …` of a function definition, left to right -/
